@@ -23,7 +23,7 @@ from mc.models import regex_nfa as R
 
 ID = "C19"
 LEVEL = "model_checking"
-REQUIRED_OUTCOMES = ["pattern:polynomial", "matcher-agrees-with-engine", "family:polynomial-growth", "inventory:runtime",
+REQUIRED_OUTCOMES = ["tiny-input:answered", "http:same-as-loads", "pattern:polynomial", "matcher-agrees-with-engine", "family:polynomial-growth", "inventory:runtime",
                      "inventory:static", "document-load:fast", "inventory:no-pattern-built-from-document-data", "structure:polynomial"]
 
 DRIVER = r'''
@@ -542,15 +542,22 @@ class Abort(BaseException):
     pass
 
 
-def count_calls(fn):
-    """number of Python function calls made while fn() runs (a deterministic work measure); aborted beyond HARD_CAP"""
+def count_calls(fn, hard_cap=None):
+    """number of Python function calls made while fn() runs (a deterministic work measure); aborted beyond HARD_CAP
+    (calls of C functions - str.strip, file.readline - are counted for the abort only: a loop of them must end, too)"""
     import signal
     n = [0]
+    c = [0]
+    cap = hard_cap or HARD_CAP
 
     def prof(frame, event, arg):
         if event == "call":
             n[0] += 1
-            if n[0] > HARD_CAP:
+            if n[0] > cap:
+                raise Abort()
+        elif event == "c_call":
+            c[0] += 1
+            if c[0] > 8 * cap:
                 raise Abort()
 
     def alarm(signum, frame):
@@ -564,7 +571,7 @@ def count_calls(fn):
         try:
             fn()
         except Abort:
-            return HARD_CAP + 1
+            return cap + 1
         except RecursionError:
             pass
         except Exception:                                              # noqa  (a rejected document is fine: we count work)
@@ -602,6 +609,98 @@ def eval_struct(name):
             "stalls": bool(stalls and not exponential), "last_ratios": [round(r, 2) for r in last]}
 
 
+# ---- every tiny input, every transfer mode ------------------------------------------------------------
+
+TINY_TOKENS = ["\n", " ", "1", "x", "[a]", "a=b", "{", "}", "#", "\"", "[header]", "version = 1.2"]
+TINY_CAP = 20000
+
+
+def tiny_loaders():
+    import productmd.composeinfo, productmd.images, productmd.rpms, productmd.modules, productmd.extra_files   # noqa
+    import productmd.treeinfo, productmd.discinfo                                                             # noqa
+    return {"composeinfo": productmd.composeinfo.ComposeInfo, "images": productmd.images.Images, "rpms": productmd.rpms.Rpms,
+            "modules": productmd.modules.Modules, "extra_files": productmd.extra_files.ExtraFiles,
+            "treeinfo": productmd.treeinfo.TreeInfo, "discinfo": productmd.discinfo.DiscInfo}
+
+
+def tiny_inputs(depth):
+    out = [""]
+    level = [""]
+    for _ in range(depth):
+        level = [a + t for a in level for t in TINY_TOKENS]
+        out += level
+    return out
+
+
+def eval_tiny(loader, text):
+    cls = tiny_loaders()[loader]
+    c = count_calls(lambda: cls().loads(text), hard_cap=TINY_CAP)
+    return {"ends": c <= TINY_CAP}
+
+
+class _FakeSocket(object):
+    def __init__(self, raw):
+        self.raw = raw
+
+    def makefile(self, *a, **k):
+        import io
+        return io.BytesIO(self.raw)
+
+
+HTTP_MODES = ["content-length", "close-delimited", "chunked-1", "chunked-7", "chunked-whole", "content-length-empty-body"]
+
+
+def http_response(body, mode):
+    import http.client
+    data = body.encode("utf-8")
+    if mode == "content-length":
+        raw = b"HTTP/1.1 200 OK\r\nContent-Length: %d\r\n\r\n" % len(data) + data
+    elif mode == "content-length-empty-body":
+        raw = b"HTTP/1.1 200 OK\r\nContent-Length: 0\r\n\r\n"
+    elif mode == "close-delimited":
+        raw = b"HTTP/1.0 200 OK\r\n\r\n" + data
+    else:
+        k = {"1": 1, "7": 7, "whole": max(len(data), 1)}[mode.split("-")[1]]
+        chunks = b"".join(b"%x\r\n" % len(data[i:i + k]) + data[i:i + k] + b"\r\n" for i in range(0, len(data), k))
+        raw = b"HTTP/1.1 200 OK\r\nTransfer-Encoding: chunked\r\n\r\n" + chunks + b"0\r\n\r\n"
+    r = http.client.HTTPResponse(_FakeSocket(raw))
+    r.begin()
+    return r
+
+
+def http_documents():
+    from mc.build import ci as CI, im as IM
+    from mc.checks import c08
+    docs = {"composeinfo": CI.build(CI.seed_layered()).dumps(), "images": IM.build(IM.seed_grid()).dumps()}
+    for fmt, name in (("rpms", "rpms"), ("modules", "modules"), ("extra", "extra_files")):
+        docs[name] = c08.build(c08.content_of([fmt, 0]), {})[1]
+    docs["composeinfo-nonascii"] = docs["composeinfo"].replace("Fedora", "F\u00e9dora \u2603")
+    return docs
+
+
+def eval_http(name, mode):
+    """The document served as an HTTP response body (the object urlopen() hands to load()), in every transfer mode."""
+    text = http_documents()[name]
+    cls = tiny_loaders()[name.split("-")[0]]
+    want = cls()
+    want.loads(text)
+    got = cls()
+    out = {}
+
+    def go():
+        try:
+            got.load(http_response(text, mode))
+            out["load"] = "ok"
+        except Exception as exc:                                             # noqa
+            out["load"] = type(exc).__name__
+    c = count_calls(go, hard_cap=STEP_CAP)
+    if c > STEP_CAP:
+        return {"ends": False}
+    if mode == "content-length-empty-body":
+        return {"ends": True, "refused": out.get("load") != "ok"}
+    return {"ends": True, "load": out.get("load"), "same_as_loads": out.get("load") == "ok" and got.dumps() == want.dumps()}
+
+
 # ---- exploration --------------------------------------------------------------------------------
 
 def inventory():
@@ -623,6 +722,9 @@ def units(tier, seed):
     us.append(("inventory", nrt, nst, tainted))
     for name in sorted(STRUCT_FAMILIES):
         us.append(("struct", name))
+    for loader in sorted(tiny_loaders()):
+        us.append(("tiny", loader, 2 if tier == "quick" else 3))
+    us.append(("http",))
     return us
 
 
@@ -641,6 +743,38 @@ def run_unit(unit, acc):
                           "'Zq.9+Zq' the library compiled/matched the pattern %r - any document can smuggle in a nested quantifier" % pat)
         if not unit[3]:
             acc.outcome("inventory:no-pattern-built-from-document-data")
+        return
+    if unit[0] == "tiny":
+        _, loader, d = unit
+        eval_tiny(loader, "{}")                                           # (imports done before anything is counted)
+        for text in tiny_inputs(d):
+            o = eval_tiny(loader, text)
+            acc.ev()
+            acc.trace()
+            if not o["ends"]:
+                acc.violation("tiny-input-never-ends:" + loader, {"kind": "tiny", "loader": loader, "text": text}, o,
+                              "%s.loads(%r): a %d-character input is not answered within %d calls" % (loader, text, len(text), TINY_CAP))
+            else:
+                acc.outcome("tiny-input:answered")
+        acc.nontriv(("tiny", loader))
+        return
+    if unit[0] == "http":
+        for name in sorted(http_documents()):
+            for mode in HTTP_MODES:
+                o = eval_http(name, mode)
+                acc.ev()
+                acc.nontriv(("http", name, mode))
+                case = {"kind": "http", "name": name, "mode": mode}
+                if not o["ends"]:
+                    acc.violation("http-load-never-ends", case, o, "load() of %s served as an HTTP response (%s) is not answered within %d calls"
+                                  % (name, mode, STEP_CAP))
+                elif mode == "content-length-empty-body":
+                    acc.outcome("http:empty-body-refused" if o["refused"] else "http:empty-body-accepted")
+                elif not o["same_as_loads"]:
+                    acc.violation("http-load-differs", case, o, "load() of %s served as an HTTP response (%s): %s, not the result of loads()"
+                                  % (name, mode, o["load"]))
+                else:
+                    acc.outcome("http:same-as-loads")
         return
     if unit[0] == "struct":
         o = eval_struct(unit[1])
@@ -710,6 +844,11 @@ def replay(case):
         return {"superpolynomial_or_stall": bool(o["exponential"] or o["stalls"])}
     if case["kind"] == "doc":
         return eval_doc_probe(case["name"], case["value"])
+    if case["kind"] == "tiny":
+        eval_tiny(case["loader"], "{}")
+        return eval_tiny(case["loader"], case["text"])
+    if case["kind"] == "http":
+        return eval_http(case["name"], case["mode"])
     return verdict_only(eval_pattern(case["pattern"], case["flags"], case["tier"], "search" if case["how"] == ["search"] else "match"))
 
 
